@@ -15,7 +15,7 @@ import (
 // The Go runtime occasionally live-locks under `-tags faketime` (GC worker stuck runnable, the
 // virtual clock never advances). Defence: GC off (main), and the generated run is split into child
 // processes of `chunkSize` cases, each under coreutils `timeout` (real time) and retried.
-const chunkSize = 100
+const chunkSize = 1000
 
 var (
 	flagLo = flag.Int("lo", -1, "child mode: first case index")
